@@ -217,7 +217,7 @@ def main(argv=None) -> int:
     if 'witness' in k:
       rsig, _ = replay_witness(k['witness'])
       if rsig == k['sig']:
-        print(f'KNOWN-FINDING: property={prop} {k["text"]}', flush=True)
+        print(f'KNOWN-FINDING: property={prop} [{k["sig"]}] {k["text"]}', flush=True)
       else:
         print(f'note: listed finding {k["sig"]} does not reproduce on this tree (replay: {rsig})', flush=True)
   known_sigs = {k['sig'] for k in known}
@@ -273,6 +273,9 @@ def main(argv=None) -> int:
   exit_code = EXIT_OK
   seen_sigs = set()
   rdir = os.path.join(VERIF, 'replays', prop)
+  if os.path.isdir(rdir) and not a.only:
+    import shutil
+    shutil.rmtree(rdir, ignore_errors=True)
   for v in new_violations:
     if v['replay_sig'] in seen_sigs:
       continue
